@@ -525,3 +525,135 @@ Proof.
     reflexivity.
   - destruct Ho.
 Qed.
+
+(* ---- AutoSaveIndex = false and SaveIndex ---- *)
+Section AutoSave.
+Variable content : node -> list node.
+Variable isman : node -> bool.
+Variable rank : node -> nat.
+Hypothesis content_isman : forall p, content p <> [] -> isman p = true.
+Hypothesis rank_dec : forall p c, In c (content p) -> rank c < rank p.
+
+(* the part of the state Predecessors, Exists and the resolver depend on *)
+Definition core (s : ostore) := (o_blobs s, o_bydigest s, o_tagged s, o_graph s).
+(* J without "index.json is up to date" *)
+Definition Jc (s : ostore) : Prop := J content isman (osave s).
+
+Lemma J_Jc s : J content isman s -> Jc s.
+Proof.
+  intros [H1 H2 H3 H4 H5 H6]. constructor; simpl; auto. apply save_sync. exact H5.
+Qed.
+
+Lemma Jc_core s s' : core s = core s' -> Jc s -> Jc s'.
+Proof.
+  unfold core, Jc, osave. intro E. inversion E as [[E1 E2 E3 E4]]. rewrite E1, E2, E3, E4. auto.
+Qed.
+
+Lemma Jc_synced_J s : Jc s -> synced_b s = true -> J content isman s.
+Proof.
+  intros [H1 H2 H3 H4 H5 H6] Hs. simpl in *. constructor; auto.
+  unfold synced_b in Hs. apply andb_true_iff in Hs. destruct Hs as [Ha Hb].
+  rewrite forallb_forall in Ha, Hb. intro p. split.
+  - intro Hp. specialize (Ha p Hp). apply orb_true_iff in Ha.
+    destruct Ha as [Ha|Ha]; apply smem_In in Ha; auto.
+  - intro Hp. apply smem_In. apply Hb. apply in_app_iff. exact Hp.
+Qed.
+
+(* except for a reopen, a step does not read index.json *)
+Lemma ostep_core_indep fuel s o :
+  match o with PReopen => False | _ => True end ->
+  core (fst (ostep true true true content isman fuel (osave s) o)) =
+  core (fst (ostep true true true content isman fuel s o)) /\
+  snd (ostep true true true content isman fuel (osave s) o) =
+  snd (ostep true true true content isman fuel s o).
+Proof.
+  intro Ho. destruct o; cbn [ostep]; simpl o_blobs; simpl o_bydigest; simpl o_tagged; simpl o_graph.
+  - destruct (smem n (o_blobs s)); [split; reflexivity|]. destruct (isman n); split; reflexivity.
+  - destruct (smem n (o_blobs s)); split; reflexivity.
+  - split; reflexivity.
+  - destruct (remove (o_graph s) n) as [g' dang].
+    match goal with |- context [if ?c then _ else _] => destruct c end; split; reflexivity.
+  - unfold o_sok. simpl o_blobs.
+    destruct (load content (fun x => negb (isman x) || smem x (o_blobs s)) fuel (o_tagged s ++ kept)) as [g' ok].
+    destruct ok; split; reflexivity.
+  - destruct Ho.
+  - unfold o_sok. simpl o_blobs.
+    match goal with |- context [forallb ?f ?l] => destruct (forallb f l) end; [|split; reflexivity].
+    destruct (load content (fun x => negb (isman x) || smem x (o_blobs s)) fuel (o_tagged s ++ roots)) as [g' ok].
+    destruct ok; split; reflexivity.
+Qed.
+
+Lemma ostep_Jc_nonreopen fuel s o :
+  match o with PReopen => False | _ => True end ->
+  Jc s -> Jc (fst (ostep true true true content isman fuel s o)).
+Proof.
+  intros Ho HJ. destruct (ostep_core_indep fuel s o Ho) as [Hc _].
+  apply (Jc_core (fst (ostep true true true content isman fuel (osave s) o))); [exact Hc|].
+  apply J_Jc, (ostep_J content isman rank content_isman rank_dec), HJ.
+Qed.
+
+Lemma astep_Jc fuel a o :
+  Jc (a_s a) -> snd (astep content isman fuel a o) = true ->
+  Jc (a_s (fst (astep content isman fuel a o))).
+Proof.
+  intros HJ Hok. destruct o as [op|v|]; cbn [astep] in *.
+  - destruct (ostep true true true content isman fuel (a_s a) op) as [s' ok] eqn:E.
+    assert (s' = fst (ostep true true true content isman fuel (a_s a) op)) as Es by (rewrite E; reflexivity).
+    assert (match op with PReopen => False | _ => True end -> Jc s') as Hnr.
+    { intro Ho. rewrite Es. apply ostep_Jc_nonreopen; auto. }
+    destruct op; cbn [fst snd a_s] in *;
+      try (specialize (Hnr I); destruct (a_auto a); [exact Hnr | apply (Jc_core s'); [reflexivity | exact Hnr]]).
+    + (* Reopen of a saved index *)
+      apply andb_true_iff in Hok. destruct Hok as [_ Hs].
+      rewrite Es. apply J_Jc, (ostep_J content isman rank content_isman rank_dec).
+      apply Jc_synced_J; auto.
+  - exact HJ.
+  - cbn [fst a_s]. apply (Jc_core (a_s a)); [reflexivity | exact HJ].
+Qed.
+
+Lemma arun_Jc fuel ops : forall a,
+  Jc (a_s a) -> snd (arun content isman fuel a ops) = true ->
+  Jc (a_s (fst (arun content isman fuel a ops))).
+Proof.
+  induction ops as [|o r IH]; intros a HJ Hok; simpl in *; auto.
+  destruct (astep content isman fuel a o) as [a1 ok1] eqn:E1.
+  destruct (arun content isman fuel a1 r) as [a2 ok2] eqn:E2.
+  simpl in *. apply andb_true_iff in Hok. destruct Hok as [-> ->].
+  assert (Jc (a_s a1)) as H1.
+  { pose proof (astep_Jc fuel a o HJ) as H. rewrite E1 in H. apply H. reflexivity. }
+  specialize (IH a1 H1). rewrite E2 in IH. apply IH. reflexivity.
+Qed.
+
+Lemma autosave_history_exact fuel ops n :
+  let r := arun content isman fuel empty_astore ops in
+  snd r = true ->
+  NoDup (predecessors (o_graph (a_s (fst r))) n) /\
+  forall p, In p (predecessors (o_graph (a_s (fst r))) n) <->
+            In p (o_blobs (a_s (fst r))) /\ In n (content p).
+Proof.
+  intros r Hok.
+  assert (Jc (a_s (fst r))) as HJ.
+  { apply arun_Jc; auto. apply J_Jc. apply J_empty. }
+  apply (J_exact content isman content_isman (osave (a_s (fst r))) HJ n).
+Qed.
+End AutoSave.
+
+(* reopening an index that was not saved loses what was pushed since (documented: the caller
+   must call SaveIndex) -- why the theorem needs [snd r = true] *)
+Lemma autosave_unsaved_reopen_refuted :
+  exists content isman fuel ops n p,
+    (forall q, content q <> [] -> isman q = true) /\
+    let r := arun content isman fuel empty_astore ops in
+    snd r = false /\ In p (o_blobs (a_s (fst r))) /\ In n (content p) /\
+    ~ In p (predecessors (o_graph (a_s (fst r))) n).
+Proof.
+  exists (ctab pf_ct), pf_isman, 50, [ASetAuto false; AOp (PPush 0%N); AOp (PPush 2%N); AOp PReopen], 0%N, 2%N.
+  split; [exact pf_content_isman|].
+  vm_compute. repeat split; auto.
+Qed.
+
+Lemma autosave_saved_reopen_example :
+  let r := arun (ctab pf_ct) pf_isman 50 empty_astore
+             [ASetAuto false; AOp (PPush 0%N); AOp (PPush 2%N); ASaveIndex; AOp PReopen] in
+  snd r = true /\ predecessors (o_graph (a_s (fst r))) 0%N = [2%N].
+Proof. vm_compute. repeat split. Qed.
